@@ -262,6 +262,50 @@ fn collect_idents(ts: TokenStream, out: &mut HashSet<String>) {
     }
 }
 
+/// Remove, on the item, its variants and their fields, every attribute whose path is one of `names`.
+fn strip_item_attrs(it: &mut syn::Item, names: &[String]) {
+    let keep = |a: &syn::Attribute| -> bool {
+        match a.path().get_ident() {
+            Some(i) => !names.iter().any(|n| i == n),
+            None => true,
+        }
+    };
+    fn fields_mut(f: &mut syn::Fields) -> Vec<&mut syn::Field> {
+        match f {
+            syn::Fields::Named(n) => n.named.iter_mut().collect(),
+            syn::Fields::Unnamed(n) => n.unnamed.iter_mut().collect(),
+            syn::Fields::Unit => Vec::new(),
+        }
+    }
+    match it {
+        syn::Item::Struct(s) => {
+            s.attrs.retain(keep);
+            for f in fields_mut(&mut s.fields) {
+                f.attrs.retain(keep);
+            }
+        }
+        syn::Item::Enum(e) => {
+            e.attrs.retain(keep);
+            for v in e.variants.iter_mut() {
+                v.attrs.retain(keep);
+                for f in fields_mut(&mut v.fields) {
+                    f.attrs.retain(keep);
+                }
+            }
+        }
+        syn::Item::Impl(i) => i.attrs.retain(keep),
+        _ => {}
+    }
+}
+
+fn item_cmp_text(src: TokenStream, strip: &[String]) -> Option<String> {
+    let mut it = syn::parse2::<syn::Item>(src).ok()?;
+    if !strip.is_empty() {
+        strip_item_attrs(&mut it, strip);
+    }
+    Some(it.to_token_stream().to_string())
+}
+
 fn observe(req: &Value) -> Value {
     let id = req.get("id").cloned().unwrap_or(Value::Null);
     let entry = match req.get("entry").and_then(|v| v.as_str()) {
@@ -322,9 +366,32 @@ fn observe(req: &Value) -> Value {
         v.sort();
         resp["new_idents"] = json!(v);
     }
+    let strip: Vec<String> = req
+        .get("strip")
+        .and_then(|v| v.as_array())
+        .map(|a| a.iter().filter_map(|x| x.as_str().map(|s| s.to_string())).collect())
+        .unwrap_or_default();
+    if let Some(e) = req.get("expect_item").and_then(|v| v.as_str()) {
+        resp["expect_cmp"] = match TokenStream::from_str(e).ok().and_then(|t| item_cmp_text(t, &strip)) {
+            Some(s) => json!(s),
+            None => Value::Null,
+        };
+    }
     match syn::parse2::<syn::File>(out) {
         Ok(f) => {
             resp["parses"] = json!(true);
+            if req.get("expect_item").is_some() {
+                resp["first_cmp"] = match f.items.first() {
+                    Some(it) => {
+                        let mut it = it.clone();
+                        if !strip.is_empty() {
+                            strip_item_attrs(&mut it, &strip);
+                        }
+                        json!(it.to_token_stream().to_string())
+                    }
+                    None => Value::Null,
+                };
+            }
             let items: Vec<Value> = f.items.iter().map(describe_item).collect();
             resp["items"] = Value::Array(items);
         }
